@@ -447,5 +447,118 @@ impl MainEvent {
     }
 }
 
+/// Verification hooks (only compiled with `--cfg alpha_g_verif`). Read-only
+/// views of internal state and thin wrappers around internal functions; they
+/// do not change any behavior.
+#[cfg(alpha_g_verif)]
+pub mod verif {
+    use super::*;
+
+    pub type WireSignals = [Option<Vec<f64>>; TPC_ANODE_WIRES];
+    pub type PadSignals = [[Option<Vec<f64>>; TPC_PAD_ROWS]; TPC_PAD_COLUMNS];
+
+    impl MainEvent {
+        pub fn verif_signals(&self) -> (&WireSignals, &PadSignals) {
+            (&self.wire_signals, &self.pad_signals)
+        }
+        /// `wires` is (wire index, signal); `pads` is (column, row, signal).
+        pub fn verif_from_signals(
+            wires: Vec<(usize, Vec<f64>)>,
+            pads: Vec<(usize, usize, Vec<f64>)>,
+            trigger_timestamp: u32,
+        ) -> MainEvent {
+            let mut wire_signals = [(); TPC_ANODE_WIRES].map(|_| None);
+            let mut pad_signals = [(); TPC_PAD_COLUMNS].map(|_| [(); TPC_PAD_ROWS].map(|_| None));
+            for (i, s) in wires {
+                wire_signals[i] = Some(s);
+            }
+            for (c, r, s) in pads {
+                pad_signals[c][r] = Some(s);
+            }
+            MainEvent {
+                wire_signals,
+                pad_signals,
+                trigger_timestamp,
+            }
+        }
+    }
+    /// (baseline, gain, delay) of a wire, by wire index.
+    pub fn wire_calibration(run_number: u32, wire_index: usize) -> Result<(i16, f64, usize), String> {
+        let wire = TpcWirePosition::try_from(wire_index).map_err(|e| e.to_string())?;
+        Ok((
+            try_wire_baseline(run_number, wire).map_err(|e| e.to_string())?,
+            try_wire_gain(run_number, wire).map_err(|e| e.to_string())?,
+            try_wire_delay(run_number).map_err(|e| e.to_string())?,
+        ))
+    }
+    /// (baseline, gain, delay) of a pad, by (column, row) index.
+    pub fn pad_calibration(
+        run_number: u32,
+        column: usize,
+        row: usize,
+    ) -> Result<(i16, f64, usize), String> {
+        let pad = TpcPadPosition {
+            column: column.try_into().map_err(|_| "bad column".to_string())?,
+            row: row.try_into().map_err(|_| "bad row".to_string())?,
+        };
+        Ok((
+            try_pad_baseline(run_number, pad).map_err(|e| e.to_string())?,
+            try_pad_gain(run_number, pad).map_err(|e| e.to_string())?,
+            try_pad_delay(run_number).map_err(|e| e.to_string())?,
+        ))
+    }
+    pub fn nn_greedy_deconvolution(
+        signal: &[f64],
+        response: &[f64],
+        offset: usize,
+        look_ahead: usize,
+    ) -> (f64, Vec<f64>) {
+        crate::deconvolution::verif_nn_greedy_deconvolution(signal, response, offset, look_ahead)
+    }
+    pub fn ls_deconvolution(
+        signal: &[f64],
+        response: &[f64],
+        offsets: std::ops::RangeInclusive<usize>,
+        look_aheads: std::ops::RangeInclusive<usize>,
+    ) -> Vec<f64> {
+        crate::deconvolution::verif_ls_deconvolution(signal, response, offsets, look_aheads)
+    }
+    pub fn wire_response() -> Vec<f64> {
+        crate::deconvolution::wires::verif_wire_response()
+    }
+    pub fn pad_response() -> Vec<f64> {
+        crate::deconvolution::pads::verif_pad_response()
+    }
+    pub fn pad_deconvolution(signal: &[f64]) -> Vec<f64> {
+        crate::deconvolution::pads::pad_deconvolution(signal)
+    }
+    pub fn contiguous_ranges(wire_signals: &WireSignals) -> Vec<(usize, usize)> {
+        crate::deconvolution::wires::contiguous_ranges(wire_signals)
+    }
+    pub fn wire_range_deconvolution(
+        wire_signals: &WireSignals,
+        range: (usize, usize),
+    ) -> Vec<(usize, Vec<f64>)> {
+        crate::deconvolution::wires::wire_range_deconvolution(wire_signals, range)
+    }
+    pub fn wire_to_pad_column(wire: usize) -> usize {
+        crate::matching::wire_to_pad_column(wire)
+    }
+    pub fn pad_column_to_wires(pad_column: usize) -> std::ops::Range<usize> {
+        crate::matching::pad_column_to_wires(pad_column)
+    }
+    pub fn match_column_inputs(
+        wire_indices: [usize; 8],
+        wire_inputs: &[Vec<f64>; 8],
+        pad_column_inputs: &[Vec<f64>; TPC_PAD_ROWS],
+    ) -> Vec<Avalanche> {
+        crate::matching::match_column_inputs(wire_indices, wire_inputs, pad_column_inputs)
+    }
+    #[allow(clippy::type_complexity)]
+    pub fn drift_tables() -> Vec<(Vec<(f64, f64, f64)>, f64)> {
+        crate::drift::verif_drift_tables()
+    }
+}
+
 #[cfg(test)]
 mod tests;
